@@ -1002,7 +1002,7 @@ func (m *Model) sqlCasGuard(s *SQLSite, K *ssa.Function, c *cut, isP func(ssa.Va
 	if !reach[s.Call.Block().Index] {
 		return false, problems
 	}
-	texts, ok := ev.eval(q, topFrame(K))
+	texts, ok := ev.eval(q, s.textFrame(K))
 	if os.Getenv("RL_DEBUG") != "" {
 		fmt.Fprintf(os.Stderr, "DEBUG sqlCasGuard %s: cut edges=%v triples=%v reach=%v texts=%q\n", m.declName(K), c.edges, c.triples, reach, texts)
 	}
@@ -1248,6 +1248,52 @@ func (m *Model) readStateGuard(fn *ssa.Function, lp *rmwLoop, w ssa.CallInstruct
 		}
 		cuts[f.Name()].cutEdge(iff.Block(), cd.succWhen(true))
 	}
+	// ... or decided by a pure classifier: `switch classify(.., doc.flag, ..) { case K:` where
+	// the helper returns the constant K only on paths on which that parameter is true
+	for _, iff := range allIfs(fn) {
+		cd := condOf(iff)
+		eq, ok := cd.equalEdge()
+		if !ok {
+			continue
+		}
+		call, k := cd.X, cd.Y
+		if _, isC := stripConv(call).(*ssa.Const); isC {
+			call, k = cd.Y, cd.X
+		}
+		cl, ok1 := stripConv(call).(*ssa.Call)
+		kc, ok2 := stripConv(k).(*ssa.Const)
+		if !ok1 || !ok2 || kc.Value == nil {
+			continue
+		}
+		h := cl.Common().StaticCallee()
+		if h == nil || !m.inPkg(h) || h.Blocks == nil {
+			continue
+		}
+		for j, arg := range cl.Common().Args {
+			ld, ok := stripConv(arg).(*ssa.UnOp)
+			if !ok || ld.Op != token.MUL || j >= len(h.Params) {
+				continue
+			}
+			fa, ok := ld.X.(*ssa.FieldAddr)
+			if !ok {
+				continue
+			}
+			pt, ok := fa.X.Type().Underlying().(*types.Pointer)
+			if !ok || !types.Identical(pt.Elem(), docT) {
+				continue
+			}
+			f := fieldOf(fa)
+			if b, ok := f.Type().Underlying().(*types.Basic); !ok || b.Kind() != types.Bool {
+				continue
+			}
+			if m.constOnlyWhereTrue(h, kc, h.Params[j]) {
+				if cuts[f.Name()] == nil {
+					cuts[f.Name()] = newCut()
+				}
+				cuts[f.Name()].cutEdge(iff.Block(), eq)
+			}
+		}
+	}
 	var names []string
 	for n := range cuts {
 		names = append(names, n)
@@ -1261,6 +1307,35 @@ func (m *Model) readStateGuard(fn *ssa.Function, lp *rmwLoop, w ssa.CallInstruct
 	return " / whatever the state of the document read"
 }
 
+// constOnlyWhereTrue: the pure classifier h (every return hands back a constant) returns the
+// constant k only on paths on which its bool parameter p was tested and found true.
+func (m *Model) constOnlyWhereTrue(h *ssa.Function, k *ssa.Const, p *ssa.Parameter) bool {
+	if h.Signature.Results().Len() != 1 {
+		return false
+	}
+	c := newCut()
+	for _, iff := range allIfs(h) {
+		cd := condOf(iff)
+		if cd.Op == token.ILLEGAL && cd.X != nil && stripConv(cd.X) == ssa.Value(p) {
+			c.cutEdge(iff.Block(), cd.succWhen(true))
+		}
+	}
+	if len(c.edges) == 0 {
+		return false
+	}
+	reach := entryReach(h, c)
+	for _, ret := range returnsOf(h) {
+		rc, ok := stripConv(ret.Results[0]).(*ssa.Const)
+		if !ok || rc.Value == nil {
+			return false // not a pure classifier
+		}
+		if reach[ret.Block().Index] && constant.Compare(rc.Value, token.EQL, k.Value) {
+			return false
+		}
+	}
+	return true
+}
+
 // mustBeFailureReturn: the error result of ret is non-nil on EVERY path: it is a freshly made
 // error value or a sentinel, or the return is unreachable once the edges on which the returned
 // error value was found non-nil are cut.
@@ -1271,6 +1346,18 @@ func (m *Model) mustBeFailureReturn(ret *ssa.Return) bool {
 	errV := ret.Results[len(ret.Results)-1]
 	if !types.Identical(errV.Type(), types.Universe.Lookup("error").Type()) {
 		return false
+	}
+	// a named result spilled into a cell (deferred closure): what this return stored there
+	if ld, ok := errV.(*ssa.UnOp); ok && ld.Op == token.MUL {
+		if al, ok := ld.X.(*ssa.Alloc); ok {
+			instrs := ret.Block().Instrs
+			for i := len(instrs) - 1; i >= 0; i-- {
+				if st, ok := instrs[i].(*ssa.Store); ok && st.Addr == ssa.Value(al) {
+					errV = st.Val
+					break
+				}
+			}
+		}
 	}
 	if c, ok := errV.(*ssa.Const); ok {
 		return c.Value != nil
@@ -1584,6 +1671,35 @@ func (m *Model) ruleRMW(r *Results) {
 		r.check(wrapped == "", rule, "CAS-mismatch error is returned unwrapped", "-", "no CasMismatchErr is wrapped by fmt.Errorf (the retry loops recognise it by type assertion)", "a CasMismatchErr is wrapped with fmt.Errorf at "+wrapped+" while the retry loops test `err.(CasMismatchErr)`: a lost race is then reported to the caller as a failure instead of being retried")
 	}
 	// (d) UpdateFunc contract (sg-bucket): "updated == nil and !delete" means "leave the body alone", so the
+	// (h) read-then-write without a loop: a function that reads a document through the pool and
+	// afterwards runs a transaction of its own that writes documents (not a CAS-conditional entry
+	// point, which would be a write-back and is checked above) decides what to write from a version
+	// that may be gone by the time it writes: the update of whoever wrote in between is lost
+	{
+		te := m.newTermEval()
+		docK := map[*ssa.Function]bool{}
+		for _, wu := range m.writeUnits(te) {
+			docK[wu.K] = true
+		}
+		for _, tc := range m.txnClosures() {
+			if !docK[tc.Fn] || tc.Caller == nil || tc.Caller.Parent() != nil || tc.Call == nil {
+				continue
+			}
+			F := tc.Caller
+			if _, isCond := conds[F]; isCond {
+				continue
+			}
+			m.eachCall(F, func(c ssa.CallInstruction) {
+				callee := c.Common().StaticCallee()
+				if callee == nil || !m.isReadFn(callee) || m.reachesRunner(callee, map[*ssa.Function]int{}) {
+					return
+				}
+				if forwardReachable(c, tc.Call) {
+					r.bad(rule, m.declName(F)+" / a transaction's write does not depend on a read made before it", m.instrPos(c), "%s reads the document through %s before its transaction begins and then writes documents in that transaction: nothing ties the write to the version that was read, so a write that lands in between is overwritten (for a counter: an increment is lost)", m.declName(F), callee.Name())
+				}
+			})
+		}
+	}
 	// a failed write-back is never reported as success: from the edge on which the write-back's
 	// error is non-nil, every return reached before the next read either returns that error or is
 	// a must-fail return (turning "the document vanished meanwhile" into `return 0, nil` tells the
@@ -1606,25 +1722,28 @@ func (m *Model) ruleRMW(r *Results) {
 				continue
 			}
 			// values the error is copied to (a named result, a phi at a join)
-			isErr := func(v ssa.Value) bool {
+			var isErrD func(v ssa.Value, d int) bool
+			isErrD = func(v ssa.Value, d int) bool {
 				v = stripConv(v)
 				if v == errV {
 					return true
 				}
-				if phi, ok := v.(*ssa.Phi); ok {
+				if phi, ok := v.(*ssa.Phi); ok && d < 4 {
 					for _, e := range phi.Edges {
-						if stripConv(e) == errV {
+						if isErrD(e, d+1) {
 							return true
 						}
 					}
 				}
 				return false
 			}
+			isErr := func(v ssa.Value) bool { return isErrD(v, 0) }
 			c := newCut()
 			for _, rd := range lp.Reads {
 				c.cutBlock(rd.Block())
 			}
 			bad := ""
+			// the edges on which the write-back's error was tested and found nil lead to success
 			for _, iff := range allIfs(fn) {
 				cd := condOf(iff)
 				eq, ok := cd.equalEdge()
@@ -1635,41 +1754,43 @@ func (m *Model) ruleRMW(r *Results) {
 				if isNilConst(cd.X) {
 					other = cd.Y
 				}
-				if !isErr(other) {
+				if isErr(other) {
+					c.cutEdge(iff.Block(), eq)
+				}
+			}
+			// everything else the write-back can lead to (whether or not the error is tested at all)
+			reach := reachableFromSuccs(site.Block(), c)
+			if _, isRet := site.Block().Instrs[len(site.Block().Instrs)-1].(*ssa.Return); isRet {
+				reach[site.Block().Index] = true
+			}
+			for _, ret := range returnsOf(fn) {
+				if !reach[ret.Block().Index] || len(ret.Results) == 0 {
 					continue
 				}
-				for _, sc := range iff.Block().Succs {
-					if sc == eq || c.blocks[sc.Index] {
-						continue
-					}
-					reach := reachableFrom(sc, c)
-					for _, ret := range returnsOf(fn) {
-						if !reach[ret.Block().Index] || len(ret.Results) == 0 {
-							continue
-						}
-						ev := ret.Results[len(ret.Results)-1]
-						// a named result captured by a deferred closure is returned through its cell:
-						// what the return statement stored there
-						if ld, ok := ev.(*ssa.UnOp); ok && ld.Op == token.MUL {
-							if al, ok := ld.X.(*ssa.Alloc); ok {
-								instrs := ret.Block().Instrs
-								for i := len(instrs) - 1; i >= 0; i-- {
-									if st, ok := instrs[i].(*ssa.Store); ok && st.Addr == ssa.Value(al) {
-										ev = st.Val
-										break
-									}
-								}
+				ev := ret.Results[len(ret.Results)-1]
+				if !isErrorType(ev.Type()) {
+					continue
+				}
+				// a named result captured by a deferred closure is returned through its cell:
+				// what the return statement stored there
+				if ld, ok := ev.(*ssa.UnOp); ok && ld.Op == token.MUL {
+					if al, ok := ld.X.(*ssa.Alloc); ok {
+						instrs := ret.Block().Instrs
+						for i := len(instrs) - 1; i >= 0; i-- {
+							if st, ok := instrs[i].(*ssa.Store); ok && st.Addr == ssa.Value(al) {
+								ev = st.Val
+								break
 							}
 						}
-						if isErr(ev) || m.mustBeFailureReturn(ret) {
-							continue
-						}
-						if mi, ok := ev.(*ssa.MakeInterface); ok && mi != nil {
-							continue // a freshly made error value
-						}
-						bad = m.instrPos(ret)
 					}
 				}
+				if isErr(ev) || m.mustBeFailureReturn(ret) {
+					continue
+				}
+				if mi, ok := ev.(*ssa.MakeInterface); ok && mi != nil {
+					continue // a freshly made error value
+				}
+				bad = m.instrPos(ret)
 			}
 			callee := site.Common().StaticCallee()
 			cname := "?"
@@ -2056,6 +2177,19 @@ func (m *Model) docSource(p ssa.Value, fn *ssa.Function, lp *rmwLoop, depth int,
 		return "the caller's own argument " + x.Name()
 	case *ssa.Const:
 		return "nil"
+	case *ssa.Extract:
+		// the pointer a read helper of the loop returns
+		for _, rd := range lp.Reads {
+			if rd.Value() != nil && ssa.Value(rd.Value()) == x.Tuple {
+				return "read"
+			}
+		}
+	case *ssa.Call:
+		for _, rd := range lp.Reads {
+			if rd.Value() != nil && rd.Value() == x {
+				return "read"
+			}
+		}
 	case *ssa.UnOp:
 		if x.Op == token.MUL {
 			if al, ok := x.X.(*ssa.Alloc); ok {
@@ -2232,6 +2366,75 @@ func (m *Model) ruleFLAGS(r *Results) {
 			default:
 				r.bad(rule, key, where, "option %s is set by a caller but never consulted by the function that receives it", f.Name())
 			}
+		}
+	}
+	// a body write that carries no expected CAS is insert-only: a call of a writer that takes a
+	// body (pointer to a package struct), an expected CAS by pointer and an all-bool option struct,
+	// with a body and a nil CAS, sets one of the options to the constant true - whether the write
+	// may replace a live document cannot depend on a runtime value
+	allBoolStruct := func(t types.Type) bool {
+		st, ok := t.Underlying().(*types.Struct)
+		if !ok || st.NumFields() == 0 {
+			return false
+		}
+		for i := 0; i < st.NumFields(); i++ {
+			if !types.Identical(st.Field(i).Type(), types.Typ[types.Bool]) {
+				return false
+			}
+		}
+		return true
+	}
+	for _, w := range m.Funcs {
+		if w.Parent() != nil || !m.inPkg(w) || w.Blocks == nil {
+			continue
+		}
+		pc, pb, po := -1, -1, -1
+		for i, p := range w.Params {
+			t := p.Type()
+			if pt, ok := t.(*types.Pointer); ok {
+				if b, ok := pt.Elem().Underlying().(*types.Basic); ok && b.Kind() == types.Uint64 && pc < 0 {
+					pc = i
+				}
+				if n, ok := pt.Elem().(*types.Named); ok && n.Obj().Pkg() == m.Pkg.Types && i > 0 && pb < 0 {
+					if _, isSt := n.Underlying().(*types.Struct); isSt && !allBoolStruct(n) {
+						pb = i
+					}
+				}
+			} else if n, ok := t.(*types.Named); ok && n.Obj().Pkg() == m.Pkg.Types && allBoolStruct(n) {
+				po = i
+			}
+		}
+		if pc < 0 || pb < 0 || po < 0 {
+			continue
+		}
+		for _, cl := range m.staticCallersOf(w) {
+			args := cl.Common().Args
+			if len(args) != len(w.Params) || !isNilConst(stripConv(args[pc])) || isNilConst(stripConv(args[pb])) {
+				continue
+			}
+			constTrue := false
+			if ld, ok := stripConv(args[po]).(*ssa.UnOp); ok && ld.Op == token.MUL {
+				if al, ok := ld.X.(*ssa.Alloc); ok && al.Referrers() != nil {
+					for _, ref := range *al.Referrers() {
+						fa, ok := ref.(*ssa.FieldAddr)
+						if !ok || fa.Referrers() == nil {
+							continue
+						}
+						var stores []*ssa.Store
+						for _, r2 := range *fa.Referrers() {
+							if st, ok := r2.(*ssa.Store); ok && st.Addr == ssa.Value(fa) {
+								stores = append(stores, st)
+							}
+						}
+						if len(stores) == 1 {
+							if k, ok := stores[0].Val.(*ssa.Const); ok && k.Value != nil && k.Value.Kind() == constant.Bool && constant.BoolVal(k.Value) {
+								constTrue = true
+							}
+						}
+					}
+				}
+			}
+			r.check(constTrue, rule, m.declName(cl.Parent())+" / body write without an expected CAS is insert-only", m.instrPos(cl), "the call passes a body and no expected CAS, with an option that is the constant true", "the call hands "+w.Name()+" a body and no expected CAS (nil) while none of its options is the constant true: whether this unconditional write may replace a live document now depends on a runtime value (or on nothing)")
 		}
 	}
 	r.floor(rule, 3)
@@ -2454,7 +2657,7 @@ func (m *Model) sqlLiveStmts(s *SQLSite, K *ssa.Function, c0 *cut) []*sqlp.Stmt 
 		}
 		return true
 	}
-	texts, ok := ev.eval(q, topFrame(K))
+	texts, ok := ev.eval(q, s.textFrame(K))
 	if !ok {
 		return nil
 	}
@@ -2499,7 +2702,7 @@ func (m *Model) sqlZeroCasUnguarded(s *SQLSite, K *ssa.Function, c0 *cut, isP fu
 		}
 		return true
 	}
-	texts, ok := ev.eval(q, topFrame(K))
+	texts, ok := ev.eval(q, s.textFrame(K))
 	if !ok {
 		return nil
 	}
@@ -2629,4 +2832,89 @@ func (m *Model) bodyRetriesOnlyOnCasError(lp *rmwLoop, w ssa.CallInstruction, er
 		return false
 	}
 	return true
+}
+
+// ---------------------------------------------------------------- R-RETRY-STATE
+
+// A retry loop re-runs the whole attempt on the newer version: nothing an abandoned attempt
+// computed may reach the write-back of a later one.
+func (m *Model) ruleRETRYSTATE(r *Results) {
+	const rule = "R-RETRY-STATE"
+	if m.A.CollectionType == nil {
+		r.undecided(rule, "anchors", "-", "collection type unresolved")
+		return
+	}
+	for _, lp := range m.rmwLoops() {
+		fn := lp.Fn
+		name := m.declName(lp.nameFn())
+		// (a') no argument of the write-back carries state from an abandoned attempt: a value that
+		// reaches the call through a phi at the loop's header whose back-edge input was computed
+		// inside the loop (an expiry the callback returned for a version that was then rejected) is
+		// written on behalf of an attempt that no longer exists; a reset to a constant (previous =
+		// nil) is not state
+		if lp.Outer == nil {
+			for _, w := range lp.Writes {
+				site := w
+				if v, ok := lp.Via[w]; ok {
+					site = v
+				}
+				if site.Parent() != fn {
+					continue
+				}
+				bad := ""
+				for ai, arg := range site.Common().Args {
+					seen := map[ssa.Value]bool{}
+					var walk func(v ssa.Value, d int)
+					walk = func(v ssa.Value, d int) {
+						v = stripConv(v)
+						if v == nil || seen[v] || d > 6 {
+							return
+						}
+						seen[v] = true
+						switch x := v.(type) {
+						case *ssa.Phi:
+							hdr := x.Block()
+							carried := false
+							for i, p := range hdr.Preds {
+								if !hdr.Dominates(p) {
+									continue
+								}
+								e := stripConv(x.Edges[i])
+								if _, isC := e.(*ssa.Const); isC || e == ssa.Value(x) {
+									continue
+								}
+								carried = true
+							}
+							if carried && (hdr == site.Block() || hdr.Dominates(site.Block())) {
+								name := x.Comment
+								if name == "" {
+									name = x.Name()
+								}
+								bad = fmt.Sprintf("argument %d (%s)", ai, name)
+								return
+							}
+							for _, e := range x.Edges {
+								walk(e, d+1)
+							}
+						case *ssa.BinOp:
+							walk(x.X, d+1)
+							walk(x.Y, d+1)
+						case *ssa.UnOp:
+							if x.Op != token.MUL {
+								walk(x.X, d+1)
+							}
+						}
+					}
+					walk(arg, 0)
+				}
+				callee := site.Common().StaticCallee()
+				cname := "?"
+				if callee != nil {
+					cname = callee.Name()
+				}
+				r.check(bad == "", rule, name+" / write-back via "+cname+" carries no state of an abandoned attempt", m.instrPos(site), "no argument of the write-back is a value carried round the retry loop", bad+" of the write-back is carried round the retry loop from a previous iteration: what an abandoned attempt computed (e.g. the expiry its callback returned) is written by the retry although this attempt's callback did not ask for it")
+			}
+		}
+	}
+	r.floor(rule, 3)
 }
